@@ -118,7 +118,7 @@ def _get_mode_order(num_of_values, modes, N):
     return mode_order[:num_of_values]
 
 
-def reshape_samples(samples_dict, modes, N, timebins):
+def reshape_samples(samples_dict, modes, N, timebins, mode_order=None):
     """Reshapes the samples dict so that they have the expected correct shape.
 
     Corrects the :attr:`~.Results.samples_dict` dictionary so that the measured modes are
@@ -170,6 +170,9 @@ def reshape_samples(samples_dict, modes, N, timebins):
         modes (Sequence[int]): the modes that are measured in the circuit
         N (Sequence[int]): the number of concurrent modes per belt/spatial modes
         timebins (int): the number of timebins/temporal modes in the program per shot
+        mode_order (Sequence[int]): the modes of the unrolled circuit in which the samples were
+            measured, time bin by time bin and, within a time bin, in the order of ``modes``.
+            If not given, the order produced by the default shift is assumed.
 
     Returns:
         dict[int, array]: the re-shaped samples, where each key correspond to a spatial
@@ -177,7 +180,8 @@ def reshape_samples(samples_dict, modes, N, timebins):
     """
     # calculate the total number of samples and the order in which they were measured
     num_of_values = len([i for j in samples_dict.values() for i in j])
-    mode_order = _get_mode_order(num_of_values, modes, N)
+    if mode_order is None:
+        mode_order = _get_mode_order(num_of_values, modes, N)
     idx_tracker = {i: 0 for i in mode_order}
 
     # iterate backwards through `samples_dict` and add them into the correct mode
@@ -370,6 +374,22 @@ class TDMProgram(Program):
         # sorted, so that entry ``i`` is the measured mode of band ``i`` (a set iterates in hash
         # order, e.g. ``list({8, 0}) == [8, 0]``)
         return sorted(self._measured_modes)
+
+    def get_mode_order(self):
+        """The modes measured by the (unrolled) circuit, in the order expected by
+        :func:`reshape_samples`: time bin by time bin and, within a time bin, in the order of
+        :attr:`measured_modes`.
+
+        The order is read off the circuit itself, so it is valid for every value of ``shift`` and
+        for space-unrolled circuits.
+        """
+        slots = [c.reg[0].ind for c in self.rolled_circuit if isinstance(c.op, ops.Measurement)]
+        # position, within a time bin, of the measurement of each measured mode
+        rank = sorted(range(len(slots)), key=slots.__getitem__)
+        measured = [c.reg[0].ind for c in self.circuit if isinstance(c.op, ops.Measurement)]
+        if not slots:
+            return []
+        return [measured[g + k] for g in range(0, len(measured), len(slots)) for k in rank]
 
     @property
     def timebins(self):
